@@ -40,13 +40,13 @@ ASSUMPTIONS = [
     "operands outside the menus and histories deeper than the BFS bound are not explored",
 ]
 BOUND = {
-    "quick": "E1: 9-column operand frames (i8,f8,b1,str,<U,obj,D,us,u1) with 0,1,3 rows x every public DataFrame method x menu (sort/unique/group by every column, 5 joins, ...); Vectors of 10 kinds x lengths 0,1,3 x every public Vector method; E2: BFS depth 2 with the C06 oracle",
+    "quick": "E1: 10-column operand frames (i8,f8,b1,str,<U,obj,D,us,u1,ns) with 0,1,3 rows x every public DataFrame method x menu (sort/unique/group by every column, 5 joins, ...); Vectors of 10 kinds x lengths 0,1,3 x every public Vector method; E2: BFS depth 2 with the C06 oracle",
     "thorough": "E1 as quick plus 2- and 4-row operands; E2: BFS depth 3",
 }
 TIME_CAP = {"quick": 300, "thorough": 3300}
 CLAUSES = {"C06"}
 
-COLS = [("i", "i8"), ("f", "f8"), ("b", "b1"), ("s", "str"), ("u", "U"), ("o", "obj"), ("d", "D"), ("t", "us"), ("w", "u1")]
+COLS = [("i", "i8"), ("f", "f8"), ("b", "b1"), ("s", "str"), ("u", "U"), ("o", "obj"), ("d", "D"), ("t", "us"), ("w", "u1"), ("n", "ns")]
 IN_PLACE_DOCUMENTED = {"group_by", "copy", "pop", "popitem"}
 
 
@@ -247,7 +247,7 @@ def df_menu():
     add("from_arrow", "", lambda d, a: DataFrame.from_arrow(d.unselect("o").to_arrow()))
     add("from_pandas", "", lambda d, a: DataFrame.from_pandas(d.to_pandas()))
     add("from_json", "", lambda d, a: DataFrame.from_json(d.select("i", "f", "b", "s").to_json()))
-    for fmt, sel in (("csv", ["i", "f", "b", "s", "d"]), ("json", ["i", "f", "b", "s"]), ("npz", names), ("parquet", ["i", "f", "b", "s", "d", "t"]), ("pickle", names)):
+    for fmt, sel in (("csv", ["i", "f", "b", "s", "d"]), ("json", ["i", "f", "b", "s"]), ("npz", names), ("parquet", ["i", "f", "b", "s", "d", "t", "n"]), ("pickle", names)):
         add(f"write_{fmt}", "", lambda d, a, fmt=fmt, sel=sel: _write_read(d.select(*sel), fmt, False))
         add(f"read_{fmt}", "", lambda d, a, fmt=fmt, sel=sel: _write_read(d.select(*sel), fmt, True))
     return m
